@@ -69,7 +69,7 @@ func init() {
 func (p *c17) ID() string { return "C17" }
 func (p *c17) Rule() string {
 	return "seq: every sequence of length 4 (quick) / 5 (thorough) over {Push(nil), Push({a,b}), Push({c:nil,b}), Pop (only while a pushed scope exists), Set a int, Set a nil, Set b string, Set c slice, Set b map, Copy-and-continue-on-copy, Copy-and-continue-on-original} x 6 root configurations (nil root, map root, map root that is also the root data, struct root data + root map, pointer-to-struct root data, nil pointer root data); after every operation every live stack is observed (Lookup and EnvMap for every name of the universe; once per distinct prefix also Resolve of probe paths, GetString/GetInt/GetSlice/GetMap and ForEach) and compared with a reference list-of-scopes model. " +
-		"path: every chain of <=2 (quick) / <=3 (thorough) holders from {map[string]any, []any, [2]any, struct field, pointer, *struct field, []struct, []*struct, nested struct value} around each of the terminal values (scalars, typed maps/slices/arrays, nil maps/slices/pointers, structs with json tags/omitempty/untagged/unexported/embedded fields, pointers to pointers) bound in the root map, and the chains of length <=2 again in 5 more binding modes (shadowing pushed scope, struct root data by tag, by field name, pointer root data, copy; first three steps); every path of valid steps and every invalid step (out of range, negative, non-numeric, huge index, missing key, unexported/missing field, step on nil pointer/scalar/nil) in dotted, bracketed, quoted-bracket and mixed spelling, expectation known from the construction of the value. " +
+		"path: every chain of <=2 (quick) / <=3 (thorough) holders from {map[string]any, []any, [2]any, struct field, pointer, *struct field, []struct, []*struct, nested struct value} around each of the terminal values (scalars, typed maps/slices/arrays, nil maps/slices/pointers, structs with json tags/omitempty/untagged/unexported/embedded fields, pointers to pointers) bound in the root map, and the chains of length <=2 again in 5 more binding modes (shadowing pushed scope, struct root data by tag, by field name, pointer root data, copy; first three steps); every path of valid steps and every invalid step (out of range, negative, non-numeric, huge index, missing key, unexported/missing field, step on nil pointer/scalar/nil) in dotted, bracketed, quoted-bracket, mixed and padded-bracket (a[ 'k' ][ 0 ]) spelling, expectation known from the construction of the value. " +
 		"rseq/rpath: seeded random sequences (<=60 ops, <=4 live stacks, explicit observers with random paths) and random nested values. reuse: random sequences in which the caller pushes, re-fills and re-pushes its own map objects. " +
 		"non-trivial = a sequence with at least one executed mutator or a value with at least one container step; distinct by the whole case"
 }
@@ -873,7 +873,7 @@ func (r *c17Run) checkExpr(si int, api, name string, steps []string, sp int) boo
 			r.fail(si, "Resolve", d, ncls, "Resolve(%q) = (%s, %v); expected %s", expr, c17Show(gv), gok, c17DescribeExp(exp))
 			return false
 		}
-		r.cell2("resolve/", c17Spellings[sp%4])
+		r.cell2("resolve/", c17Spellings[sp%len(c17Spellings)])
 		if len(steps) > 0 {
 			r.cell2("seq-path/"+exp.parent+"/", exp.stepCls)
 		}
@@ -1370,7 +1370,7 @@ func (p *c17) execPath(ctx core.Ctx, c c17Case) core.Obs {
 
 	// check one path in all spellings; returns false if any spelling disagrees with the expectation
 	check := func(steps []string, exp c17Exp) bool {
-		nsp := 4
+		nsp := len(c17Spellings)
 		if len(steps) == 0 {
 			nsp = 1
 		}
